@@ -11,11 +11,15 @@ structure Counter where
   count : Nat
   occurred : Bool
   paused : Bool
+  /-- ghost (not in the code, never read by the model's behaviour, not compared by the correspondence
+  check): the clock reading at which the count last started from zero — set by `new` and `reset`,
+  and by a `restart` that finds the count at zero.  Theorem C17 states the limit in terms of it. -/
+  base : Nat := 0
   deriving DecidableEq, Repr, Inhabited
 
 /-- `Counter::new` (reads the clock for `start_time`; starts paused) -/
 def Counter.new (timeout max now : Nat) : Counter :=
-  { start := now, timeout, max, count := 0, occurred := false, paused := true }
+  { start := now, timeout, max, count := 0, occurred := false, paused := true, base := now }
 
 /-- the `while now.duration_since(self.start_time) >= self.timeout` loop; the fuel only runs out
 for `timeout = 0`, where the Rust loop does not terminate -/
@@ -32,11 +36,12 @@ def Counter.update (c : Counter) (now : Nat) : Counter :=
 
 /-- `Counter::restart`: keeps the count -/
 def Counter.restart (c : Counter) (now : Nat) : Counter :=
-  { c.update now with start := now, paused := false, occurred := false }
+  { c.update now with start := now, paused := false, occurred := false,
+                      base := if (c.update now).count == 0 then now else (c.update now).base }
 
 /-- `Counter::reset`: count back to 0 -/
 def Counter.reset (c : Counter) (now : Nat) : Counter :=
-  { c with start := now, paused := false, occurred := false, count := 0 }
+  { c with start := now, paused := false, occurred := false, count := 0, base := now }
 
 /-- `Counter::pause` -/
 def Counter.pause (c : Counter) (now : Nat) : Counter := { c.update now with paused := true }
